@@ -192,10 +192,10 @@ func (cp *FreeList) ToGC() (string, error) {
 	}
 
 	vhook.Point("fl.togc.flush")
-	_, err = cp.Flush()
-	if err != nil {
-		return "", err
-	}
+	// Do not flush the in-memory pool here. Entries reach the freelist file
+	// only when the store commits, after the primary and index data that
+	// supersede them were written. Handing unflushed entries to GC would let
+	// it act on records that are not on disk yet, or whose replacement is not.
 
 	cp.flushLock.Lock()
 	defer cp.flushLock.Unlock()
